@@ -2,3 +2,6 @@
 import Tcell.Model.Cell
 import Tcell.Model.CellOps
 import Tcell.Props.C08
+import Tcell.Spec.Ecma48
+import Tcell.Spec.Ecma48Lemmas
+import Tcell.Spec.Ecma48Test
